@@ -2,6 +2,7 @@
 use super::*;
 use crate::bitfield::verif_contracts::{any_rows, blk, blk_all, for_rows, rows_eq, rows_of, rows_with_blk, Blk, Rows};
 use crate::verif_contracts::{clause, vcover};
+use crate::atomic::AtomicImpl;
 
 const ROWS: usize = HUGE_FRAMES / 64;
 const LEN: usize = Bitfield::LEN;
@@ -873,3 +874,137 @@ query_harness!(c04_lower_is_free_o4_h2, check_is_free::<4, 2>());
 query_harness!(c04_lower_is_free_o7_h0, check_is_free::<7, 0>());
 query_harness!(c04_lower_is_free_o9_h3, check_is_free::<9, 3>());
 query_harness!(c04_lower_is_free_o10_h2, check_is_free::<10, 2>());
+
+// ---------------------------------------------------------------------------------------------
+// C05 (crash points inside one call): the persistent state after ANY number K of this call's
+// atomic writes (K symbolic) differs from the pre-call state, in terms of the effective allocation
+// status eff(f) = marker(f's huge frame) || bit(f), only inside the block the call operates on.
+// Together with c05_recover_* (recovery keeps eff and re-establishes wf_lower from any state):
+// a block returned by a completed allocation and untouched since stays allocated, an untouched free
+// frame stays free. The bitfield code runs with its REAL bodies here (its intermediate states are
+// the crash points); only the std retry loop of try_update is by contract.
+// ---------------------------------------------------------------------------------------------
+pub(crate) mod crash {
+    use super::*;
+    pub static mut STATE: *const LState = core::ptr::null();
+    pub static mut K: usize = 0;
+    pub static mut WRITES: usize = 0;
+    pub static mut TAKEN: bool = false;
+    pub static mut SNAP_ROWS: [Rows; NBF] = [[0; ROWS]; NBF];
+    pub static mut SNAP_ENT: [u16; NBF] = [0; NBF];
+    /// called after every atomic write of the call under test
+    pub fn after_write() {
+        unsafe {
+            WRITES += 1;
+            if WRITES == K && !STATE.is_null() {
+                let s = (*STATE).snap([0; NBF]);
+                SNAP_ROWS = s.rows;
+                SNAP_ENT = s.ent;
+                TAKEN = true;
+            }
+        }
+    }
+}
+impl<T: Atomic> Atom<T> {
+    pub(crate) fn store_crash(&self, v: T) {
+        self.0.store(v.into());
+        crash::after_write();
+    }
+    pub(crate) fn compare_exchange_crash(&self, current: T, new: T) -> core::result::Result<T, T> {
+        match self.0.compare_exchange(current.into(), new.into()) {
+            Ok(v) => {
+                crash::after_write();
+                Ok(v.into())
+            }
+            Err(v) => Err(v.into()),
+        }
+    }
+    pub(crate) fn try_update_crash<F: FnMut(T) -> Option<T>>(&self, mut f: F) -> core::result::Result<T, T> {
+        let old = self.0.load();
+        match f(old.into()) {
+            Some(new) => {
+                self.0.store(new.into());
+                crash::after_write();
+                Ok(old.into())
+            }
+            None => Err(old.into()),
+        }
+    }
+}
+fn eff(rows: &[Rows; NBF], ent: &[u16; NBF], f: usize) -> bool {
+    let h = f / LEN;
+    ent_huge(ent[h]) || (rows[h][(f % LEN) / 64] >> (f % 64)) & 1 == 1
+}
+/// op: 0 = put, 1 = get_at, 2 = get (search)
+fn check_crash<const ORDER: usize, const H: usize>(op: u8) {
+    let (st, old) = any_state();
+    let lower = st.lower_shaped::<NBF>(NT * TREE_FRAMES);
+    let f = any_block_in::<ORDER, H>();
+    let b = blk(f % LEN, ORDER);
+    if ORDER < HUGE_ORDER {
+        kani::assume(ghost_zeros_block_fact(&old, H, &b, ORDER));
+    }
+    unsafe {
+        crash::STATE = &st as *const LState;
+        crash::K = kani::any();
+        crash::WRITES = 0;
+        crash::TAKEN = false;
+    }
+    kani::assume(unsafe { crash::K } >= 1);
+    // the block the call operates on
+    let (blk_first, blk_len) = match op {
+        0 => {
+            let _ = lower.put(FrameId(f), ORDER);
+            (f, 1usize << ORDER)
+        }
+        1 => {
+            let _ = lower.get(RowId(0), ORDER, Some(FrameId(f)));
+            (f, 1usize << ORDER)
+        }
+        _ => {
+            let start_row: usize = kani::any();
+            kani::assume(start_row < ROWS);
+            match lower.get(RowId(H * ROWS + start_row), ORDER, None) {
+                Ok(g) => (g.0, 1usize << ORDER),
+                // a failing search may have tried (and rolled back) blocks anywhere in the tree: during the
+                // call those are "touched by an in-flight call"; a completed failing call left nothing
+                // (l1b_get_*). Here: the whole tree counts as touched.
+                Err(_) => ((H / TREE_HUGE) * TREE_FRAMES, TREE_FRAMES),
+            }
+        }
+    };
+    vcover!(unsafe { crash::TAKEN }, "a crash point inside the call is reached");
+    if unsafe { crash::TAKEN } {
+        let (srows, sent) = unsafe { (crash::SNAP_ROWS, crash::SNAP_ENT) };
+        let w: usize = kani::any();
+        kani::assume(w < NT * TREE_FRAMES && (w < blk_first || w >= blk_first + blk_len));
+        clause!(eff(&srows, &sent, w) == eff(&old.rows, &old.ent, w), "C05: at every crash point of the call, every frame outside the call's block keeps its allocation status");
+    }
+}
+macro_rules! crash_harness {
+    ($op:expr, $($name:ident: ($o:expr, $h:expr)),+) => {
+        $(
+        #[kani::proof]
+        #[kani::unwind(10)]
+        #[kani::solver(kissat)]
+        #[kani::stub(crate::atomic::Atom::try_update, crate::atomic::Atom::try_update_crash)]
+        #[kani::stub(crate::atomic::Atom::store, crate::atomic::Atom::store_crash)]
+        #[kani::stub(crate::atomic::Atom::compare_exchange, crate::atomic::Atom::compare_exchange_crash)]
+        fn $name() {
+            check_crash::<$o, $h>($op);
+        }
+        )+
+    };
+}
+crash_harness!(0, c05_crash_put_o0_h1: (0, 1), c05_crash_put_o3_h1: (3, 1), c05_crash_put_o6_h1: (6, 1), c05_crash_put_o7_h1: (7, 1), c05_crash_put_o8_h1: (8, 1), c05_crash_put_o9_h1: (9, 1), c05_crash_put_o10_h2: (10, 2));
+crash_harness!(1, c05_crash_get_at_o0_h1: (0, 1), c05_crash_get_at_o4_h1: (4, 1), c05_crash_get_at_o7_h1: (7, 1), c05_crash_get_at_o8_h1: (8, 1), c05_crash_get_at_o9_h1: (9, 1), c05_crash_get_at_o10_h2: (10, 2));
+crash_harness!(2, c05_crash_get_o0_h1: (0, 1), c05_crash_get_o7_h1: (7, 1), c05_crash_get_o9_h1: (9, 1));
+
+impl<'a> Lower<'a> {
+    /// Contract stub of `Lower::new` for the allocator-level construction obligation: the lower
+    /// allocator is whatever c06_* / c05_recover_* establish; the allocator level only sees `LF`.
+    pub(crate) fn new_contract(frames: usize, _init: Init, primary: &'a mut [u8]) -> Result<Self> {
+        kani::assert(primary.len() >= Self::metadata_size(frames), "Lower::new precondition: buffer large enough (checked by MetaData::valid)");
+        Ok(Lower { len: frames, bitfields: &[], children: &[] })
+    }
+}
